@@ -3,6 +3,7 @@ import Driver.Parse
 import Driver.PinParse
 import Driver.C13Import
 import ClusterVerif.Model.C13Flow
+import ClusterVerif.Gen.C13Par
 /-! C13 driver: parses one case line, runs the bookkeeping model on the observed block stream,
     evaluates the Spec clauses on what the implementation showed. Core Lean only. -/
 namespace CV.C13
@@ -150,7 +151,10 @@ def contentCase (pre post : List (String × String)) (o : Obs) : Option Imp.Cont
   let fmt ← getKV pre "fmt"
   pure { params := { trickle := (← getKV pre "layout") == "trickle", raw := ← bool01 (← getKV pre "raw"),
                      wrap := ← bool01 (← getKV pre "wrap"), hidden := ← bool01 (← getKV pre "hidden") },
-         sizeChunk := Imp.sizeChunker chunker, car := fmt == "car", tree := tree,
+         sizeChunk := (match Par.parseChunker Gen.defaultChunk Gen.chunkSizeLimit (if chunker == "def" then "" else chunker) with
+                       | .size n => some n
+                       | _ => none),
+         car := fmt == "car", tree := tree,
          streamIds := o.stream.map (·.id), dag := dag, files := files }
 
 /-- `FromFiles` (Model/C13Flow.lean) never reaches an `Add` of the DAG service nor `Finalize` for this format / wrap,
@@ -158,6 +162,49 @@ def contentCase (pre post : List (String × String)) (o : Obs) : Option Imp.Cont
 def frontRefuses (fmt : String) (wrap : Bool) : Bool :=
   let f := if fmt == "car" then Flow.Format.car else if fmt == "bad" then Flow.Format.bad else Flow.Format.unixfs
   (Flow.fromFiles ⟨f, wrap, false, [some 1], some 1, none, false⟩).finalize.isNone
+
+/-- the request's import parameters as `newIpfsAdder` sees them (`def` = the empty string) -/
+def reqOf (pre : List (String × String)) : Option Par.Req := do
+  let undef := fun (s : String) => if s == "def" then "" else s
+  pure { layout := undef (← getKV pre "layout"), chunker := undef (← getKV pre "chunker"), rawLeaves := ← bool01 (← getKV pre "raw"),
+         noCopy := false, progress := false, cidVersion := Int.ofNat (← (← getKV pre "cidv").toNat?), hashFun := ← getKV pre "hash" }
+
+/-- the parameter plumbing read from the source (Gen/C13Par.lean), interpreted on this case's request, against what the
+    property needs (`Par.expected`): `some why` = the request is not passed on as it is / a refused request went on -/
+def paramsDiff (pre : List (String × String)) (o : Obs) : Option String :=
+  let fmt := (getKV pre "fmt").getD ""
+  if fmt != "unixfs" && fmt != "def" then none else
+  match reqOf pre with
+  | none => some "unparsable-request"
+  | some r =>
+    let want := Par.expected Gen.hashNames r
+    if Par.settingsOf Gen.hashNames Gen.newIpfsAdder r != want then some "request-not-passed-on"
+    else match Par.plumb Gen.hashNames Gen.linksPerBlock Gen.newIpfsAdder Gen.ipfsAdd r with
+      | none => some "unrecognised-plumbing"
+      | some none => if o.fin.isSome || !o.stream.isEmpty || o.status == .ok then some "refused-request-went-on" else none
+      | some (some imp) =>
+        if imp.rawLeaves != r.rawLeaves || imp.trickle != (r.layout == "trickle") || imp.chunker != r.chunker
+           || imp.maxlinks != ({} : Imp.Params).width then some "importer-not-as-requested" else none
+
+/-- injected front-end fault (`inj=`): kind and number -/
+def injOf (pre : List (String × String)) : Option (String × Nat) :=
+  match getKV pre "inj" with
+  | none => none
+  | some s => if s == "-" then none else ((s.drop 2).toString.toNat?).map (fun n => ((s.take 2).toString, n))
+
+/-- what `Flow.fromFiles` says about an injected case: `true` = `Finalize` must not be reached.
+    `ce k` (context cancelled when the k-th top-level entry is asked for, not wrapped): `loop_cancel_no_finalize` for `k < nent`;
+    `tr` (multipart body cut short, and mime/multipart alone reports it as broken, `broken=1`): a failing entry or
+    `loop_itErr_no_finalize`. A body cut inside a part's header block reads as a clean end of parts (`broken=0`). -/
+def injMustAbort (pre post : List (String × String)) : Bool :=
+  match injOf pre with
+  | some ("ce", k) =>
+    let nent := ((getKV post "nent").bind String.toNat?).getD 0
+    let wrap := (getKV pre "wrap").getD "0" == "1"
+    !wrap && (Flow.fromFiles ⟨.unixfs, false, false, List.replicate nent (some 1), some 1, some k, false⟩).finalize.isNone
+  | some ("tr", _) =>
+    (getKV post "broken").getD "0" == "1" && (Flow.fromFiles ⟨.unixfs, false, false, [some 1], some 1, none, true⟩).finalize.isNone
+  | _ => false
 
 def answer (ws : List String) : String :=
   match splitArrow ws with
@@ -176,21 +223,44 @@ def answer (ws : List String) : String :=
         else "ok arm=" ++ a
       else
       let m := run c o.stream o.fin
-      let a := arm c o m
-      let failed := (clauses c (o.view c.shard)).filter (fun x => !x.2)
+      let inj := injOf (kvOf pre)
+      -- an injected cancellation / broken upload may stop the add anywhere: then nothing is finalized and no success is reported
+      let aborted := inj.isSome && o.status != .ok && o.fin.isNone
+      -- a context cancelled in the middle of an entry makes remote BlockPuts fail (or arrive late) outside the fault script:
+      -- such a case is held to the Spec, and to "aborted => no Finalize, no success", but not to the scripted log
+      let unscripted := match inj with
+        | some ("cb", _) => true
+        | some ("ce", k) =>
+          -- inside the wrapping directory, or after the last entry: `Finalize` (shard flush, pins) runs with the cancelled context
+          (getKV (kvOf pre) "wrap").getD "0" == "1" || k ≥ ((getKV (kvOf post) "nent").bind String.toNat?).getD 0
+        | _ => false
+      let a := arm c o m ++ (match inj with
+        | some (k, _) => "-inj-" ++ k ++ (if aborted then "-aborted" else "")
+        | none => "")
+      -- with a cancelled context the caller's BlockPuts to remote destinations die on the caller's side: the recording services
+      -- never see those attempts, so "the destinations the blocks were sent to" cannot be read off their log for such a case
+      let unseen := fun (n : String) => unscripted && (n == "root_allocations_are_destinations" || n == "shard_allocations_are_destinations")
+      let failed := (clauses c (o.view c.shard)).filter (fun x => !x.2 && !unseen x.1)
       if !failed.isEmpty then "propfail " ++ ",".intercalate (failed.map (·.1)) ++ " arm=" ++ a
       else
         let v := compare c o m
-        if !v.agree then "diff arm=" ++ a ++ " model=" ++ v.why
-        else if frontRefuses ((getKV (kvOf pre) "fmt").getD "") ((getKV (kvOf pre) "wrap").getD "0" == "1")
+        if !v.agree && !aborted && !unscripted then "diff arm=" ++ a ++ " model=" ++ v.why
+        else if injMustAbort (kvOf pre) (kvOf post) && !aborted then "diff arm=" ++ a ++ " model=front:cancelled-or-broken-input-finalized"
+        else match paramsDiff (kvOf pre) o with
+        | some why => "diff arm=" ++ a ++ " model=params:" ++ why
+        | none =>
+        if frontRefuses ((getKV (kvOf pre) "fmt").getD "") ((getKV (kvOf pre) "wrap").getD "0" == "1")
                 && (o.fin.isSome || !o.stream.isEmpty || o.status == .ok) then
           "diff arm=" ++ a ++ " model=front:refused-input-went-on"
         else
           -- the delivered DAG and the stream against the importer model (successful adds that lost no block)
-          let cdiff := if o.status == .ok && o.failed.isEmpty then
+          let isTr := match inj with
+            | some ("tr", _) => true
+            | _ => false
+          let cdiff := if o.status == .ok && o.failed.isEmpty && !isTr then
               (contentCase (kvOf pre) (kvOf post) o).bind Imp.contentDiff else none
           match cdiff with
           | some why => "diff arm=" ++ a ++ " model=importer:" ++ why
-          | none => "ok arm=" ++ a ++ (if o.stream.isEmpty then " trivial" else "")
+          | none => "ok arm=" ++ a ++ (if !v.agree && !aborted then "-unscripted" else "") ++ (if o.stream.isEmpty then " trivial" else "")
 
 end CV.C13
